@@ -131,7 +131,7 @@ Proof.
   - destruct (all_finished _); simpl; auto.
     now destruct (stop_agents_fields (mkMgt
       (dict_set String.eqb c0 true (m_status m)) (m_values m) (m_nb m) (m_all_registered m)
-      (m_ready m) (m_all_stopped m)) en) as [-> _].
+      (m_ready m) (m_all_stopped m) (m_stop_requested m)) en) as [-> _].
 Qed.
 
 Lemma step_values c m en e :
@@ -143,7 +143,7 @@ Proof.
   - destruct (all_finished _); simpl; auto.
     now destruct (stop_agents_fields (mkMgt
       (dict_set String.eqb c0 true (m_status m)) (m_values m) (m_nb m) (m_all_registered m)
-      (m_ready m) (m_all_stopped m)) en) as [_ ->].
+      (m_ready m) (m_all_stopped m) (m_stop_requested m)) en) as [_ ->].
 Qed.
 
 (* ---------- the status table mirrors the end messages ---------- *)
@@ -204,32 +204,91 @@ Proof.
   - intros [->|H]; auto. right. now apply in_map.
 Qed.
 
+(* the stop order has been given: a stop request (timeout / external stop) or the
+   end_of_computation that completed the set of graph computations was handled *)
+Definition stops_on (c : cfg) (p : list (ev * env)) (e : ev) (en : env) : Prop :=
+  e = EStopReq \/
+  exists ag x, e = EEnd ag x /\ forall n, In n (g_nodes c) -> ended (p ++ [(e, en)]) n.
+Definition stop_ordered (c : cfg) (tr : list (ev * env)) : Prop :=
+  exists p e en s, tr = p ++ (e, en) :: s /\ stops_on c p e en.
+
+Lemma stop_agents_flag m en : m_stop_requested (fst (stop_agents m en)) = true.
+Proof. unfold stop_agents. destruct (e_agents en); reflexivity. Qed.
+
+Lemma step_flag c m en e :
+  m_stop_requested (fst (step c m en e)) =
+  m_stop_requested m || match e with
+                        | EStopReq => true
+                        | EEnd _ x => all_finished (dict_set String.eqb x true (m_status m))
+                        | _ => false
+                        end.
+Proof.
+  destruct e; simpl; rewrite ?orb_false_r; auto.
+  - rewrite stop_agents_flag, orb_true_r. reflexivity.
+  - destruct (all_finished _); simpl; [rewrite stop_agents_flag, orb_true_r|rewrite orb_false_r]; reflexivity.
+Qed.
+
+Lemma flag_stop_ordered c tr : m_stop_requested (run c tr) = true <-> stop_ordered c tr.
+Proof.
+  induction tr as [|[e en] tr IH] using rev_ind.
+  - split; [discriminate|]. intros (p & e & en & s & H & _). destruct p; discriminate.
+  - rewrite run_snoc, step_flag. split.
+    + intros H. apply orb_true_iff in H. destruct H as [H|H].
+      * apply IH in H. destruct H as (p & e' & en' & s & -> & Hs).
+        exists p, e', en', (s ++ [(e, en)]). split; auto. rewrite <- app_assoc. reflexivity.
+      * exists tr, e, en, []. split; auto. destruct e; try discriminate.
+        -- left; reflexivity.
+        -- right. exists a, c0. split; auto. now apply all_finished_after_end.
+    + intros (p & e' & en' & s & Heq & Hs). apply orb_true_iff.
+      destruct s as [|x s _] using rev_ind.
+      * apply app_inj_tail in Heq. destruct Heq as [<- Hx]. inversion Hx; subst e' en'. right.
+        destruct Hs as [->|(ag & x & -> & Hall)]; auto.
+        now apply (all_finished_after_end c tr ag x en).
+      * left. apply IH. change (p ++ (e', en') :: s ++ [x]) with (p ++ ((e', en') :: s) ++ [x]) in Heq.
+        rewrite app_assoc in Heq. apply app_inj_tail in Heq. destruct Heq as [-> _].
+        exists p, e', en', s. auto.
+Qed.
+
+(* Stop goes to agent a at a step (other than a stop request) iff a is registered and the step
+   handles the end_of_computation completing the graph computations, or (repaired code) a is an
+   agent registering after the stop order was given *)
 Lemma orch_finishes_iff_all_ended_l : forall c tr e en a,
   e <> EStopReq ->
   (In (OStop a) (snd (step c (run c tr) en e)) <->
-   In a (e_agents en) /\
-   exists ag x, e = EEnd ag x /\ forall n, In n (g_nodes c) -> ended (tr ++ [(e, en)]) n).
+   (In a (e_agents en) /\
+    exists ag x, e = EEnd ag x /\ forall n, In n (g_nodes c) -> ended (tr ++ [(e, en)]) n)
+   \/ (e = EAgentAdded a /\ stop_ordered c tr)).
 Proof.
   intros c tr e en a Hne.
-  assert (Hno : forall (P : Prop), (exists ag x, e = EEnd ag x /\ P) -> exists ag x, e = EEnd ag x) by
-    (intros P [ag [x [? _]]]; eauto).
-  destruct e; try congruence; simpl;
-    try (split; [intros [H|[]]; discriminate | intros [_ [ag [x [H _]]]]; discriminate]);
-    try (split; [intros [] | intros [_ [ag [x [H _]]]]; discriminate]).
+  destruct e; try congruence; simpl.
+  - (* EAgentAdded *)
+    split.
+    + intros [H|H]; [discriminate|].
+      destruct (m_stop_requested (run c tr)) eqn:F; [|destruct H].
+      destruct H as [H|[]]. inversion H; subst. right. split; auto. now apply flag_stop_ordered.
+    + intros [[_ (ag & x & H & _)]|[H Hso]]; [discriminate|]. inversion H; subst.
+      apply flag_stop_ordered in Hso. rewrite Hso. right; left; reflexivity.
+  - split; [intros []|intros [[_ (ag & x & H & _)]|[H _]]; discriminate].
+  - split; [intros []|intros [[_ (ag & x & H & _)]|[H _]]; discriminate].
+  - split; [intros []|intros [[_ (ag & x & H & _)]|[H _]]; discriminate].
   - (* EDeploy *)
-    split; [|intros [_ [ag [x [H _]]]]; discriminate].
+    split; [|intros [[_ (ag & x & H & _)]|[H _]]; discriminate].
     intros H. apply in_flat_map in H as [y [_ H]]. apply in_map_iff in H as [z [H _]]. discriminate.
   - (* ERun *)
-    split; [|intros [_ [ag [x [H _]]]]; discriminate].
+    split; [|intros [[_ (ag & x & H & _)]|[H _]]; discriminate].
     destruct (g_repair_only c); [intros []|].
     intros H. apply in_map_iff in H as [z [H _]]. discriminate.
+  - split; [intros []|intros [[_ (ag & x & H & _)]|[H _]]; discriminate].
   - (* EEnd *)
     destruct (all_finished (dict_set String.eqb c0 true (m_status (run c tr)))) eqn:E.
     + rewrite stop_agents_outs. simpl. split.
-      * intros Ha. split; auto. exists a0, c0. split; auto. now apply all_finished_after_end.
-      * tauto.
-    + simpl. split; [intros []|]. intros [_ [ag [x [Heq Hall]]]]. inversion Heq; subst.
-      apply (all_finished_after_end c tr ag x en) in Hall. congruence.
+      * intros Ha. left. split; auto. exists a0, c0. split; auto. now apply all_finished_after_end.
+      * intros [[Ha _]|[H _]]; [exact Ha|discriminate].
+    + simpl. split; [intros []|]. intros [[_ (ag & x & Heq & Hall)]|[H _]]; [|discriminate].
+      inversion Heq; subst. apply (all_finished_after_end c tr ag x en) in Hall. congruence.
+  - split; [intros []|intros [[_ (ag & x & H & _)]|[H _]]; discriminate].
+  - split; [intros []|intros [[_ (ag & x & H & _)]|[H _]]; discriminate].
+  - split; [intros [H|[]]; discriminate|intros [[_ (ag & x & H & _)]|[H _]]; discriminate].
 Qed.
 
 (* ---------- T2: the reported assignment is the last value of each computation ---------- *)
